@@ -533,6 +533,8 @@ type ParamSpec struct { // contract for a function-typed parameter
 }
 
 type Contract struct {
+	LockOnly bool // only the lock discipline of this function is verified
+	Abstract bool // unmodelled instructions / callees are abstracted by havoc
 	ReadonlyWhen []Clause
 	FuncName  string // as written: e.g. poolFor, (*Allocator).Assign, or fully qualified for stubs
 	Pkg       string // package path
@@ -629,7 +631,7 @@ type SpecFile struct {
 var directiveWords = map[string]bool{
 	"func": true, "requires": true, "ensures": true, "modifies": true, "loop": true, "pred": true, "fun": true,
 	"ufun": true, "axiom": true, "lemma": true, "pure": true, "check": true, "immutable": true, "trusted": true,
-	"inline": true, "package": true, "allocates": true, "pureparam": true, "denotes": true, "assert": true, "guarded_by": true, "havocs": true, "opaque": true, "reads": true, "call": true, "readonly": true,
+	"inline": true, "package": true, "allocates": true, "pureparam": true, "denotes": true, "assert": true, "guarded_by": true, "havocs": true, "opaque": true, "reads": true, "call": true, "readonly": true, "lockonly": true, "abstract": true,
 }
 
 // parseSpecText parses the joined text of //@ lines. lines carries (text,lineNo).
@@ -797,6 +799,19 @@ func parseSpecLines(file string, pkg string, lines []specLine) (*SpecFile, error
 			cur.Denotes = e
 			cur.DenotesText = d.text
 			cur.Pure = true
+		case "lockonly":
+			if cur == nil {
+				return nil, errf("lockonly outside func")
+			}
+			cur.LockOnly = true
+			cur.Abstract = true
+		case "abstract":
+			// abstract: instructions and callees outside the modelled subset are abstracted (arbitrary result, arbitrary heap
+			// afterwards, lock state kept); generated safety obligations are not claimed for such a function
+			if cur == nil {
+				return nil, errf("abstract outside func")
+			}
+			cur.Abstract = true
 		case "readonly":
 			// readonly when <expr>: when expr holds on return, no cell of an object allocated before the call was written
 			if cur == nil {
